@@ -821,6 +821,27 @@ mod tests {
     }
 
     #[test]
+    fn test_field_description_cannot_continue_the_previous_tag() {
+        let schema = json!({
+            "title": "Config",
+            "type": "object",
+            "properties": {
+                "a": { "type": "string", "description": "<b>bold</b>\n- item" },
+                "b": { "$ref": "#/$defs/B", "description": "\n  [optional] flag" },
+                "c": { "type": "number", "description": "in seconds" },
+                "d": { "type": "number", "description": "input value" }
+            },
+            "required": ["a", "b", "c", "d"]
+        });
+
+        let output = converter().convert(&schema).annotation_text;
+        assert!(output.contains("--- \\<b>bold</b>\n--- - item\n---@field a string\n"));
+        assert!(output.contains("--- \n---   \\[optional] flag\n---@field b schema.B\n"));
+        assert!(output.contains("--- \\in seconds\n---@field c number\n"));
+        assert!(output.contains("--- input value\n---@field d number\n"));
+    }
+
+    #[test]
     fn test_description_above_field() {
         let schema = json!({
             "title": "Config",
